@@ -1134,12 +1134,13 @@ pub fn c20_extractor_combos() {
 /// inner expression's value - evaluated here in two separate steps for comparison.
 pub fn c04_nested_prefix() {
     let (outer, inner, var): (u8, u8, u8) = (any(), any(), any());
-    crate::sym::assume(outer <= 1 && inner <= 1 && var <= 2);
+    // operand 3 is the magnitude of the most negative int: with the inner `-` it is the literal -9223372036854775808
+    crate::sym::assume(outer <= 1 && inner <= 1 && var <= 4 && !(var == 3 && inner == 0));
     let mut ctx = Context::default();
     ctx.add_variable_from_value("b", Value::Bool(true));
     ctx.add_variable_from_value("n", Value::Int(1));
     ctx.add_variable_from_value("m", Value::Int(i64::MIN));
-    let v = ["b", "n", "m"][var as usize];
+    let v = ["b", "n", "m", "9223372036854775808", "5"][var as usize];
     let op = |k: u8| if k == 0 { "!" } else { "-" };
     let got = Program::compile(&format!("{}({}{})", op(outer), op(inner), v)).expect("compiles").execute(&ctx);
     let step1 = Program::compile(&format!("{}{}", op(inner), v)).expect("compiles").execute(&ctx);
